@@ -51,6 +51,16 @@ CHECKS = {
    "Generated-input search: two tables and files with duplicated, NULL and one-sided keys, name clashes, INNER/OUTER, ON in either order, SELECT or aggregate statements; the real FileExecutor output is compared with nested-loop pairing (reference equality on non-NULL keys, OUTER adds a NULL-right row) followed by the reference evaluators; missing file / missing join column must be errors. Exploration, not proof.",
    "Join keys of one type on both sides (mixed numeric keys, -0.0, NaN belong to C16); OUTER JOIN under an aggregate not judged.",
    "DESIGN.md §3 C05"),
+ "C06": (True,
+   "property-based testing: metamorphic relation output(base) = output(base + non-admitted lines), batch executor and per-line engine, noise built non-admitted by construction",
+   "Generated-input search: statements of every kind (plain, DISTINCT, LIMIT, aggregate, HAVING, join) over generated tables; noise lines that by the property's own admission rule cannot become rows are inserted at generated positions in the queried input and in the joined file; batch output (bytes) and per-line transcript must not change. Exploration, not proof.",
+   "Noise is constructed from the admission rule (no non-NULL column / NULL in the NOT NULL column), never by asking the implementation.",
+   "DESIGN.md §3 C06"),
+ "C07": (True,
+   "property-based testing: metamorphic relation LIMIT n = first n rows of the unlimited run, enumerated for every n per case, plus consumption accounting via per-line attribution",
+   "Generated-input search: statements without LIMIT (plain, DISTINCT, join fan-out, aggregates) over inputs split into 1-3 files; for every n in 0..=rows+2 the LIMIT n run must print exactly the first n records of the unlimited run and consume exactly the lines up to the one producing the n-th row (0 for n = 0; everything for aggregates). Exploration over statements and data, exhaustive over n within each case.",
+   "Consumption is read from statistics().total_lines; attribution of rows to lines by feeding the unlimited statement line by line through ExecutionEngine.",
+   "DESIGN.md §3 C07"),
 }
 
 NOT_YET = {
